@@ -188,7 +188,7 @@ def run():
                 raise vf.NoVerdict("driver declared %s of %d sequences" % (res["sequences"], len(seqs)))
             # 4. the design: repaired gate satisfies C20 (exhaustive) ; the gate as written must not (vacuity guard) ; witness
             r = vf.tlc_ok(f_mc.result(), "Gate MC")
-            chk.add_tlc(r, "MC repaired gate, sequences <= %d calls x 56 requests" % (4 if thorough else 3))
+            chk.add_tlc(r, "MC repaired gate, sequences <= %d calls x 56 requests" % (5 if thorough else 3))
             rn = f_asis.result()
             if rn.violated != "OnlyAuthorized":
                 raise vf.NoVerdict("negative control: the gate as written did not violate OnlyAuthorized (%s %s)" % (rn.violated, rn.error))
